@@ -16,6 +16,8 @@ queries:  snap <path> [nuc..]  -> [vol,density,massTotal,nd..,mass..]      nucs 
 edits (answer ok | reject):
   setnd <path> <nuc> <v>   upd <path> [nuc..] [v..]   setnds <path> [nuc..] [v..]   scale <path> <f>
   addmass <path> <nuc> <m>   setmass <path> <nuc> <m>   setmf <path> [nuc..] [f..]
+derived shape:  derived <maxArea> <height> [sibVols] [sibAreas] -> [vol,area]|reject   derivedat <maxArea> [sibAreas]
+                hexmaxarea <sqrt3> <pitch>
 stateless conversions:
   ndfrommasses <rho> [nuc..] [mf..] -> [nd..]    massfractions [nuc..] [nd..] -> [mf..]
   massdensity [nuc..] [nd..]   numberdensity <nuc> <mass> <vol> -> v|reject   massingrams <nuc> <vol> <nd>
@@ -213,6 +215,21 @@ def step (s : St) (ws : List String) : St × String :=
     match parseNat? n, parseRat? v, parseRat? d with
     | some n, some v, some d => (s, showRat (getMassInGrams ph n v d))
     | _, _, _ => (s, "bad-op")
+  | ["derived", a, h, vs, as] =>
+    match parseRat? a, parseRat? h, parseRatList? vs, parseRatList? as with
+    | some a, some h, some vs, some as =>
+      (s, match deriveVolumeAndArea a h vs as with
+          | some (v, ar) => showList showRat [v, ar]
+          | none => "reject")
+    | _, _, _, _ => (s, "bad-op")
+  | ["derivedat", a, as] =>
+    match parseRat? a, parseRatList? as with
+    | some a, some as => (s, showRat (derivedAreaAt a as))
+    | _, _ => (s, "bad-op")
+  | ["hexmaxarea", q, pch] =>
+    match parseRat? q, parseRat? pch with
+    | some q, some pch => (s, showRat (hexMaxArea q pch))
+    | _, _ => (s, "bad-op")
   | _ => (s, "bad-op")
 
 def main : IO Unit := loopState ({} : St) step
